@@ -188,8 +188,8 @@ def parse_coverage(out):
     """Per-action counts from -coverage: lines like
        <R_Gen line 120, col 1 to line 128, col 55 of module HalfLock>: 12:345"""
     cov = {}
-    for m in re.finditer(r"^<(\w+) line \d+, col \d+ to line \d+, col \d+ of module (\w+)>: (\d+):(\d+)",
-                         out, re.M):
+    for m in re.finditer(r"^<(\w+) line \d+, col \d+ to line \d+, col \d+ of module (\w+)"
+                         r"(?: \([^)]*\))?>: (\d+):(\d+)", out, re.M):
         name = m.group(1)
         d, g = int(m.group(3)), int(m.group(4))
         old = cov.get(name, (0, 0))
